@@ -21,7 +21,7 @@ RULE = ("~35 public operations (slicing incl. steps and frequency ranges, Stokes
         "random chunking of every sample axis (and of the time axis), computed under the synchronous, threaded (2-16 workers, sleep(0) "
         "yield injection) and multiprocess schedulers. Oracle: no load event during graph construction; result Dask-backed; class and "
         "all metadata equal; shape/dtype equal; values bitwise (non-FFT ops) or within 32*eps*log2(N+1)*max|ref| (FFT ops); identical "
-        "across schedulers; time-chunked FFT ops either equal or refused with Dask's own ValueError. Non-trivial = a computed "
+        "across schedulers; time-chunked FFT ops either equal or refused with Dask's own ValueError; FFT ops also under non-default Dask configuration (array.chunk-size 8-64 KiB on 3000-8192 sample signals). Non-trivial = a computed "
         "comparison on non-empty data; distinct = (op, class, chunk layout kind, scheduler).")
 ASSUMPTIONS = [
     "chunk-wise FFTs of columns differ from whole-array FFTs by rounding (pocketfft vectorises across columns), so FFT-based ops are "
@@ -111,6 +111,14 @@ def build_ops(sig, rng):
     add("fast_len", lambda z: pb.fast_len(z))
     tr = pb.signal_transform(_affine)
     add("signal_transform", lambda z: tr(z))
+    # wrapped functions that change the dtype (complex -> float, anything -> bool/float64)
+    tr_abs = pb.signal_transform(np.abs)
+    tr_thr = pb.signal_transform(_threshold)
+    if isinstance(sig, pb.BasebandSignal):
+        add("signal_transform_abs", lambda z: tr_abs(z, signal_type=pb.IntensitySignal))
+    elif type(sig) in (pb.Signal, pb.RadioSignal):
+        add("signal_transform_abs", lambda z: tr_abs(z))
+        add("signal_transform_threshold", lambda z: tr_thr(z))
     if isinstance(sig, pb.RadioSignal):
         nch = sig.shape[1]
         fa = int(rng.integers(0, nch))
@@ -150,6 +158,10 @@ def build_ops(sig, rng):
 
 def _affine(x):
     return x * 2 + 1
+
+
+def _threshold(x):
+    return np.abs(x) > 0.5
 
 
 def meta_equal(ctx, o, a, b, feats):
@@ -307,6 +319,58 @@ def wl_ops(ctx, idx, rng):
             pass
 
 
+def wl_config(ctx, idx, rng):
+    """FFT-based transforms under a non-default Dask configuration (small array.chunk-size): the signal is chunked off the time
+    axis, so the operation must be accepted and equal the NumPy run."""
+    clsname = gen.pick(rng, ["Signal", "BasebandSignal", "RadioSignal"])
+    n = int(gen.pick(rng, [3000, 6000, 8192]))
+    dtype = np.complex128 if clsname == "BasebandSignal" else gen.pick(rng, [np.float64, np.complex128])
+    sig_np, desc = gen.make_signal(rng, clsname, n, nchan=None if clsname == "Signal" else 2, dtype=dtype, extra=() if clsname != "Signal" else (2,),
+                                   rate=gen.rand_rate(rng, lo=3, hi=7), fc=None if clsname == "Signal" else gen.rand_freq(rng, 3e8, 3e9))
+    x = np.asarray(sig_np.data)
+    which = ["time_shift", "snippet_frac", "freq_shift", "time_shift_crop"][idx % 4]
+    if which == "freq_shift" and clsname != "BasebandSignal":
+        which = "time_shift"
+    s1 = float(rng.uniform(-3, 3))
+    tf = float(rng.uniform(0, n - 100))
+    df = 0.17 * sig_np.sample_rate
+    fn = {"time_shift": lambda z: pb.time_shift(z, s1), "time_shift_crop": lambda z: pb.time_shift(z, s1, crop=True),
+          "snippet_frac": lambda z: pb.snippet(z, tf, 100), "freq_shift": lambda z: pb.freq_shift(z, df)}[which]
+    chunk_size = gen.pick(rng, ["8KiB", "16KiB", "64KiB"])
+    o = "dask_equiv"
+    feats = {"op": which, "cls": clsname, "layout": "config:" + chunk_size, "scheduler": "synchronous"}
+    desc.update(op=which, dask_config={"array.chunk-size": chunk_size})
+    ctx.describe_case(desc)
+    ctx.sample(desc, limit=2)
+    with warnings.catch_warnings():
+        warnings.simplefilter("ignore")
+        ref, rexc = ctx.call(o, fn, sig_np, where=f"{which} on NumPy data")
+        if rexc is not None:
+            return
+        with dask.config.set({"array.chunk-size": chunk_size}):
+            with probes.quiet():
+                xd = da.from_array(x, chunks=(n,) + tuple(1 for _ in x.shape[1:]))
+                sig_da = type(sig_np).like(sig_np, xd)
+            out, dexc = ctx.call(o, fn, sig_da, where=f"{which} on Dask data with array.chunk-size={chunk_size}", features=dict(feats, what="raised_on_dask"))
+            if dexc is not None:
+                return
+            try:
+                got = out.data.compute(scheduler="synchronous")
+            except Exception as e:
+                ctx.unexpected_exception(o, e, f"computing {which} with array.chunk-size={chunk_size}", dict(feats, what="compute_raised"))
+                return
+    ctx.count("oracle[dask_values]")
+    if not meta_equal(ctx, o, ref, out, feats):
+        return
+    ref_x = np.asarray(ref.data)
+    scale = float(np.max(np.abs(ref_x))) + 1e-300
+    if got.shape != ref_x.shape or float(np.max(np.abs(got - ref_x))) > 32 * 2.0 ** -52 * math.log2(n + 1) * scale:
+        ctx.violation(o, f"{which} under array.chunk-size={chunk_size}: Dask result differs from the NumPy result", None, dict(feats, what="value"))
+    else:
+        ctx.count("nontrivial[dask]")
+    ctx.bucket(which, clsname, "config", chunk_size)
+
+
 def wl_readers(ctx, idx, rng):
     D = os.path.join(REPO, "tests", "data")
     kind = idx % 3
@@ -399,7 +463,7 @@ def wl_readers(ctx, idx, rng):
 
 def workloads(ctx):
     q = ctx.tier == "quick"
-    return [("ops", 420 if q else 16800, wl_ops), ("readers", 18 if q else 360, wl_readers)]
+    return [("ops", 420 if q else 16800, wl_ops), ("config", 24 if q else 480, wl_config), ("readers", 18 if q else 360, wl_readers)]
 
 
 def setup(ctx):
